@@ -54,6 +54,21 @@ theorem handlers_complete :
       "framework.models.reset_models", "framework.models.fun_alt_grad"].all fun s =>
       handlers.any fun (site, exc, _, _) => site = s && exc = "LinAlgError") = true := by decide
 
+/-- **No unprotected call site (C08).**  EVERY call, anywhere in `minimize`, of a function that can raise an internal
+exception (`_eval`, `TrustRegion(...)`, the five linear-algebra entry points of the framework) sits inside `try`
+statements that catch every exception that function can raise.  The table lists all call sites, protected or not,
+so a `try` removed around one of several calls of the same function, or one missing `except` clause, breaks this. -/
+theorem every_call_site_protected :
+    callSites.all (fun (callee, caught) =>
+      match mayRaise.find? (·.1 = callee) with
+      | some (_, excs) => excs.all fun e => caught.contains e
+      | none => false) = true := by decide
+
+/-- the table is not empty: 3 `_eval` sites, the framework construction, 7 linear-algebra sites -/
+theorem call_sites_counted :
+    (callSites.filter fun s => s.1 = "_eval").length = 3 ∧ (callSites.filter fun s => s.1 = "TrustRegion").length = 1 ∧
+    (callSites.filter fun s => s.1 = "framework.get_index_to_remove").length = 3 := by decide
+
 /-- the only status decisions outside handlers are the two early exits and the two loop exits the
 skeleton knows (`buildCheck`): -1, 2, 6, 0 -/
 theorem direct_exits_known :
